@@ -48,8 +48,19 @@ def fold_string(e, resolve=None):
             amap = {p['name']: SX.show(a) for p, a in zip(h.params, SX.real_args(e))}
             st = h.body['body'] if h.body.get('k') == 'block' else [h.body]
             if len(st) == 1 and st[0]['k'] == 'return':
-                inner = fold_string(st[0]['e'], None)
-                return [(x[0], amap.get(x[1], x[1])) + tuple(x[2:]) if isinstance(x, tuple) else x for x in inner]
+                # string-valued parameters are replaced by the folded argument (a literal, or a template of the caller)
+                aparts = {}
+                for p_, a_ in zip(h.params, SX.real_args(e)):
+                    if 'char' in p_['type'] or 'string' in p_['type']:
+                        try:
+                            aparts[p_['name']] = fold_string(a_, resolve)
+                        except ValueError:
+                            pass
+
+                def inner_resolve(r_):
+                    return aparts.get(r_.get('name')) if r_.get('kind') == 'param' else None
+                inner = fold_string(st[0]['e'], inner_resolve)
+                return _merge([(x[0], amap.get(x[1], x[1])) + tuple(x[2:]) if isinstance(x, tuple) else x for x in inner])
             fmt = _stream_format(h)
             if fmt is not None:
                 return [('numfmt', amap.get(fmt[0], fmt[0]), fmt[1])]
@@ -114,9 +125,27 @@ def run(prog, chk):
     se = R.sim_ensure()
     mutators = list(sim['gates']) + [sim['reset'], sim['measure']]
     chk.count('simulator operations that must log', len(mutators), 10)
-    for f in mutators:
+    delegates = set()
+    for f0 in mutators:
+        f = f0
         g = prog.cfg(f)
         apps = [c for c in g.calls(lambda e: e['k'] == 'mcall' and SX.short(e['callee']) in ('emplace_back', 'push_back') and SX.is_this_member(SX.strip(e.get('obj')), ops))]
+        deleg = None
+        if not apps:
+            # the operation may hand both the state update and the logging to one private helper of the simulator
+            # (`void h(int q) { applyNamedGate("h", q, hadamardMatrix()); }`): judge the helper, with the call's arguments
+            hs = []
+            for cn in g.calls(lambda e: e['k'] == 'mcall' and e.get('callee', '').startswith(R.sim['name'] + '::')):
+                for t_ in prog.resolve(cn.e):
+                    if t_.body and t_ not in mutators and any(x['k'] == 'mcall' and SX.short(x['callee']) in ('emplace_back', 'push_back') and SX.is_this_member(SX.strip(x.get('obj')), ops)
+                                                             for x in SX.walk(t_.body, into_lambdas=False)):
+                        hs.append((cn, t_))
+            if len(hs) == 1 and g.must_follow(g.entry, [hs[0][0]]) and not [n for n in g.nodes if n.id in g.reachable([hs[0][0]]) and n.kind in ('assign', 'call') and _touches_amp(prog, R, n, amp)]:
+                deleg = hs[0]
+                delegates.add(deleg[1])
+                f = deleg[1]
+                g = prog.cfg(f)
+                apps = [c for c in g.calls(lambda e: e['k'] == 'mcall' and SX.short(e['callee']) in ('emplace_back', 'push_back') and SX.is_this_member(SX.strip(e.get('obj')), ops))]
         # exactly one append, guarded by the log flag only
         one = len(apps) == 1
         guarded = one and any(pol and SX.is_this_member(SX.strip(ce), flag) for ce, pol, _ in g.guards(apps[0]))
@@ -125,25 +154,37 @@ def run(prog, chk):
         flag_off = [n for n in g.nodes if n.kind == 'edge' and not n.pol and SX.is_this_member(SX.strip(n.e), flag)]
         on_all = one and g.must_follow(g.entry, apps + flag_off)
         chk.ob('R05.1', f, apps[0].ln if apps else f.ln, one and guarded and on_all,
-               '%s: exactly one log append (found %d), under the log switch, on every normal path when logging is on' % (f.short, len(apps)),
-               key='log-once:' + f.short)
+               '%s: exactly one log append (found %d), under the log switch, on every normal path when logging is on%s' % (f0.short, len(apps), (' (through %s)' % f.short) if deleg else ''),
+               key='log-once:' + f0.short)
         if not one:
             continue
         # after mutation: no write to the amplitude vector / call of the applicator after the append
         after = g.reachable(apps)
         late = [n for n in g.nodes if n.id in after and n.kind in ('assign', 'call') and _touches_amp(prog, R, n, amp)]
-        chk.ob('R05.1', f, apps[0].ln, not late, '%s logs after the state update (no amplitude access after the append)' % f.short, key='log-after-update:' + f.short)
+        chk.ob('R05.1', f, apps[0].ln, not late, '%s logs after the state update (no amplitude access after the append)' % f0.short, key='log-after-update:' + f0.short)
         # R05.4 range test before logging
         rng = _range_checks(prog, R, g, f, cnt, se)
         qparams = [p for p in f.params if p['type'] == 'int']
         for p in qparams:
             ok = any(pid == p['id'] and g.must_precede([n], apps[0]) for pid, n in rng)
-            chk.ob('R05.4', f, apps[0].ln, ok, '%s: range test of %s (0 ≤ %s < %s) precedes the log append' % (f.short, p['name'], p['name'], cnt), key='range:%s:%s' % (f.short, p['name']))
+            chk.ob('R05.4', f, apps[0].ln, ok, '%s: range test of %s (0 ≤ %s < %s) precedes the log append' % (f.short, p['name'], p['name'], cnt), key='range:%s:%s' % (f0.short, p['name']))
         # R05.2 template
+        amap = {}
+        if deleg:
+            for prm, a_ in zip(f.params, SX.real_args(deleg[0].e)):
+                a1 = SX.strip(a_)
+                amap[prm['name']] = a1['v'] if SX.is_node(a1) and a1.get('k') == 'str' else ('num', SX.show(a1))
+
+        def resolve_param(e_):
+            v_ = amap.get(e_.get('name')) if e_.get('kind') == 'param' else None
+            return [v_] if isinstance(v_, str) else None
         try:
-            parts = fold_string(SX.real_args(apps[0].e)[0])
+            parts = fold_string(SX.real_args(apps[0].e)[0], resolve_param if deleg else None)
         except ValueError as e:
             raise AnalysisBroken('%s: logged text is not a foldable string template: %s' % (f.short, e))
+        if deleg:
+            parts = _merge([(x[0], amap[x[1]][1]) + tuple(x[2:]) if isinstance(x, tuple) and isinstance(amap.get(x[1]), tuple) else x for x in parts])
+        f = f0
         want = _template(f, sim)
         # a formatter other than std::to_string is the same placeholder iff it prints fixed notation with at least six decimals
         bad_fmt = [x for x in parts if isinstance(x, tuple) and x[0] == 'numfmt' and not (x[2][0] == 'fixed' and (x[2][1] or 0) >= 6)]
@@ -166,7 +207,7 @@ def run(prog, chk):
             w = SX.write_target(n)
             if w and SX.is_node(SX.strip(w[0])) and SX.strip(w[0]).get('k') == 'member' and SX.strip(w[0]).get('q') == R.sim['name'] + '::' + ops:
                 writers.add(f)
-    bad = [f.short for f in writers if f not in mutators]
+    bad = [f.short for f in writers if f not in mutators and f not in delegates]
     chk.ob('R05.1', R.sim['name'], 'qasm_simulator', not bad, 'only the logging operations write the log (others: %s)' % bad, key='log-writers')
     # allocate must not log
     ga = prog.cfg(sim['allocate'])
@@ -212,7 +253,7 @@ def run(prog, chk):
             flat.append(('ops',))
     want = [OPEN + 'qreg q[', ('num', cnt), '];\ncreg c[', ('num', cnt), '];\n', ('ops',)]
     chk.ob('R05.3', gq, gq.ln, flat == want, 'getQasm assembles %s; expected %s' % (_render(flat), _render(want)), key='getQasm-template')
-    rets = [n for n in SX.walk(gq.body) if n['k'] == 'return']
+    rets = [n for n in SX.walk(gq.body, into_lambdas=False) if n['k'] == 'return']
     chk.ob('R05.3', gq, gq.ln, len(rets) == 1 and SX.is_node(SX.strip(rets[0].get('e'))) and SX.strip(rets[0]['e']).get('k') == 'ref', 'getQasm returns the assembled string', key='getQasm-returns',
            nontrivial=False)
 
